@@ -104,6 +104,118 @@ func run(c *config) { c.Verbose = c.level > 0 }
 `},
 }
 
+// c13MoreSources are added in the thorough tier.
+var c13MoreSources = []struct{ pkg, src string }{
+	{"lib", `package lib
+
+type Celsius struct{ Deg int }
+
+type Reading struct{ Deg int }
+
+var Last = Reading(Celsius{Deg: 1})
+
+var Anon struct {
+	Host string
+	port int
+}
+
+type Options = struct {
+	Name  string
+	Retry int
+}
+
+var Defaults = Options{Name: "x"}
+
+type Base struct{ ID int }
+
+func (b *Base) Describe() string { return "" }
+
+func (b *Base) touch() {}
+
+type Derived struct {
+	*Base
+	Extra []Base
+	cb    func(Base) Derived
+}
+
+type Stringer interface{ String() string }
+
+type named interface {
+	Stringer
+	rename(to string)
+}
+`},
+	{"lib", `package lib
+
+type List[T any] struct {
+	head *node[T]
+	Len  int
+}
+
+type node[T any] struct {
+	val  T
+	next *node[T]
+}
+
+func (l *List[T]) Push(v T) { l.head = &node[T]{val: v, next: l.head}; l.Len++ }
+
+func (l *List[T]) each(f func(T)) {
+	for n := l.head; n != nil; n = n.next {
+		f(n.val)
+	}
+}
+
+type Number interface{ ~int | ~float64 }
+
+func Sum[T Number](l *List[T]) (total T) {
+	l.each(func(v T) { total += v })
+	return total
+}
+
+type Ints = List[int]
+
+var Shared Ints
+
+type Wrapper[T any] struct {
+	List[T]
+	label string
+}
+`},
+	{"main", `package main
+
+type state int
+
+const (
+	idle state = iota
+	busy
+)
+
+type machine struct {
+	State state
+	hooks map[state]func()
+}
+
+var Machine machine
+
+var registry, Fallback = map[string]*machine{}, &Machine
+
+func (m *machine) Step() {
+	switch v := any(m.State).(type) {
+	case state:
+		m.State = v + busy
+	}
+}
+
+func (m *machine) stop() { m.State = idle }
+
+func main() {
+	Machine.Step()
+	Machine.stop()
+	registry[""] = Fallback
+}
+`},
+}
+
 const c13Path = "example.com/m"
 
 // c13Engine installs a go list result for one package whose only file is src.
@@ -314,7 +426,11 @@ func H_C13_map_build_reverse() {
 	}
 	symx.Stub("mvdan.cc/garble.hashWithCustomSalt", c13HashSummary)
 	symx.DigestPrefixFree(5) // the bytes c13HashSummary uses
-	s := c13Sources[symx.Choose(len(c13Sources))]
+	srcs := c13Sources
+	if symx.Thorough() {
+		srcs = append(append([]struct{ pkg, src string }{}, srcs...), c13MoreSources...)
+	}
+	s := srcs[symx.Choose(len(srcs))]
 	toObf := symx.Choose(tier(1, 2)) == 0
 	var lpkg *listedPackage
 	id := symx.Bytes("actionID", 32) // natively go list computes the real one
